@@ -1261,6 +1261,457 @@ example :
 
 end Demo
 
+/-! ## 6. how long a lease runs: `Dequeue` and `Extend` -/
+
+/-! ### 6a. dequeue -/
+
+/-- with pairwise distinct pick ids, the lease `grant` uses for a pick's message is that pick's lease -/
+theorem leaseFor_of_mem {p : String × String} :
+    ∀ (picks : List (String × String)), nodupStr (picks.map (·.1)) = true → p ∈ picks →
+      leaseFor picks p.1 = some p.2
+  | [], _, h => by cases h
+  | x :: xs, hnd, h => by
+    simp only [List.map_cons, nodupStr, Bool.and_eq_true, Bool.not_eq_true'] at hnd
+    rcases List.mem_cons.1 h with rfl | h
+    · simp [leaseFor]
+    · have hne : (x.1 == p.1) = false := by
+        cases hb : (x.1 == p.1) with
+        | false => rfl
+        | true =>
+          have hx : x.1 = p.1 := by simpa using hb
+          have : (xs.map (·.1)).contains x.1 = true := by
+            rw [List.contains_iff_mem, hx]
+            exact List.mem_map.2 ⟨p, h, rfl⟩
+          rw [hnd.1] at this
+          cases this
+      have := leaseFor_of_mem xs hnd.2 h
+      simpa [leaseFor, List.find?_cons, hne] using this
+
+/-- the store's dequeue: every pick names, afterwards, a message leased under the pick's lease id
+    until `now + effTTL t`.  No hypothesis on the state. -/
+theorem step_dequeue_lease_end {c : Cfg} {now : Int} {q q' : Q} {route target : String} {b t : Int}
+    {ch : Choice} {resp : Resp} (h : Hk.step c now q (.dequeue route target b t) ch = some (q', resp)) :
+    ∀ p ∈ ch.picks, ∃ m' ∈ q'.msgs, m'.id = p.1 ∧ m'.st = .leased ∧ m'.lease = p.2 ∧
+      m'.luntil = now + effTTL t := by
+  simp only [step] at h
+  generalize (Hk.prune c now q ch.gone).map (sweep c now) = o at h
+  cases o with
+  | none => cases h
+  | some q1 =>
+    simp only at h
+    split at h
+    · rename_i hlegal
+      simp only [Option.some.injEq, Prod.mk.injEq] at h
+      obtain ⟨rfl, -⟩ := h
+      intro p hp
+      simp only [legalPicks, Bool.and_eq_true, List.all_eq_true] at hlegal
+      obtain ⟨⟨⟨_, hnd⟩, _⟩, hall⟩ := hlegal
+      have hp' := hall p hp
+      simp only [List.any_eq_true, List.mem_filter, beq_iff_eq] at hp'
+      obtain ⟨m, ⟨hm, hrdy⟩, hid⟩ := hp'.1.1.1
+      have hq : m.st = .queued := by
+        simp only [ready, Bool.and_eq_true, beq_iff_eq] at hrdy
+        exact hrdy.1.1.1
+      have hlf : leaseFor ch.picks m.id = some p.2 := by rw [hid]; exact leaseFor_of_mem _ hnd hp
+      refine ⟨grant now (effTTL t) ch.picks m, List.mem_map.2 ⟨m, hm, rfl⟩, ?_⟩
+      have hg : grant now (effTTL t) ch.picks m =
+          { m with st := .leased, attempt := m.attempt + 1, lease := p.2,
+                   luntil := now + effTTL t, next := now + effTTL t } := by
+        simp only [grant, hlf, hq, beq_self_eq_true, if_true]
+      rw [hg]
+      exact ⟨hid, rfl, rfl, rfl⟩
+    · cases h
+
+/-- every pick of the response names, in the state after the step, a message leased under the pick's
+    lease id whose lease ends at `end_` -/
+def PicksLeasedUntil (ps' : PState) (r : PResp) (end_ : Int) : Prop :=
+  ∀ id lease, (id, lease) ∈ r.picks →
+    ∃ m' ∈ ps'.q.msgs, m'.id = id ∧ m'.st = .leased ∧ m'.lease = lease ∧ m'.luntil = end_
+
+/-- a legal dequeue step answers with the store's picks and the store's state -/
+theorem pstep_dequeue_store {qc : Cfg} {pc : PCfg} {now : Int} {ps ps' : PState} {route : String}
+    {batch : Int} {ttl : Option Int} {ch : Choice} {r : PResp}
+    (h : pstep qc pc now ps (.dequeue route batch ttl) ch = some (ps', r)) :
+    Hk.step qc now ps.q (.dequeue route pc.target (dqBatch pc batch) (dqTTL pc ttl)) ch =
+      some (ps'.q, .items r.picks) ∧ r.picks = ch.picks ∧ r.status = 200 := by
+  simp only [pstep] at h
+  cases hs : Hk.step qc now ps.q (.dequeue route pc.target (dqBatch pc batch) (dqTTL pc ttl)) ch with
+  | none => simp only [hs] at h; cases h
+  | some x =>
+    obtain ⟨q', resp⟩ := x
+    obtain ⟨hresp, -⟩ := step_dequeue_items hs
+    subst hresp
+    simp only [hs, Option.some.injEq, Prod.mk.injEq] at h
+    obtain ⟨rfl, rfl⟩ := h
+    exact ⟨rfl, rfl, rfl⟩
+
+/-- **6.1 (`dequeue_lease_runs_for_accepted_ttl`).** Every pick `(id, lease)` a dequeue step answers with
+    names, in the state after the step, a message with that id, leased under that lease id, whose lease
+    ends EXACTLY at `now + effTTL (dqTTL pc ttl)`: the requested TTL (else `pc.defaultTTL`), capped by
+    `pc.maxTTL` when that is > 0, and replaced by the store's 30 s when the result is not positive.
+    For ALL inputs; NO hypothesis on the state (no `Hk.Inv`), on the choice, or on the status: a legal
+    dequeue step of the model always answers 200 (`pstep_dequeue_store`), and `r.picks = []` otherwise.
+    `PicksLeasedUntil ps' r e` below is this very proposition with `e` for the lease end. -/
+theorem dequeue_lease_runs_for_accepted_ttl {qc : Cfg} {pc : PCfg} {now : Int} {ps ps' : PState}
+    {route : String} {batch : Int} {ttl : Option Int} {ch : Choice} {r : PResp}
+    (h : pstep qc pc now ps (.dequeue route batch ttl) ch = some (ps', r)) :
+    ∀ id lease, (id, lease) ∈ r.picks →
+      ∃ m' ∈ ps'.q.msgs, m'.id = id ∧ m'.st = .leased ∧ m'.lease = lease ∧
+        m'.luntil = now + effTTL (dqTTL pc ttl) := by
+  obtain ⟨hs, hp, -⟩ := pstep_dequeue_store h
+  intro id lease hmem
+  rw [hp] at hmem
+  exact step_dequeue_lease_end hs (id, lease) hmem
+
+/-- the store's own default lease length (30 s), used for a non-positive TTL -/
+def storeDefaultTTL : Int := 30000000000
+
+theorem effTTL_of_pos {t : Int} (h : 0 < t) : effTTL t = t := by
+  simp only [effTTL]; split <;> omega
+
+theorem effTTL_of_nonpos {t : Int} (h : t ≤ 0) : effTTL t = storeDefaultTTL := by
+  simp only [effTTL, storeDefaultTTL]; split <;> omega
+
+theorem dqTTL_none (pc : PCfg) :
+    dqTTL pc none = if pc.maxTTL > 0 ∧ pc.defaultTTL > pc.maxTTL then pc.maxTTL else pc.defaultTTL := by
+  simp only [dqTTL, Bool.and_eq_true, decide_eq_true_eq]
+
+theorem dqTTL_within {pc : PCfg} {t : Int} (h : pc.maxTTL ≤ 0 ∨ t ≤ pc.maxTTL) : dqTTL pc (some t) = t := by
+  simp only [dqTTL, Bool.and_eq_true, decide_eq_true_eq]
+  split <;> omega
+
+theorem dqTTL_capped {pc : PCfg} {t : Int} (h0 : 0 < pc.maxTTL) (h : pc.maxTTL < t) :
+    dqTTL pc (some t) = pc.maxTTL := by
+  simp only [dqTTL, Bool.and_eq_true, decide_eq_true_eq]
+  split <;> omega
+
+/-- **6.1a.** no TTL requested: the lease runs for the configured default, capped by `maxTTL` when that
+    is > 0 (and for the store's 30 s when the result is not positive) -/
+theorem dequeue_default_ttl {qc : Cfg} {pc : PCfg} {now : Int} {ps ps' : PState}
+    {route : String} {batch : Int} {ch : Choice} {r : PResp}
+    (h : pstep qc pc now ps (.dequeue route batch none) ch = some (ps', r)) :
+    PicksLeasedUntil ps' r
+      (now + effTTL (if pc.maxTTL > 0 ∧ pc.defaultTTL > pc.maxTTL then pc.maxTTL else pc.defaultTTL)) := by
+  have this : PicksLeasedUntil ps' r _ := dequeue_lease_runs_for_accepted_ttl h
+  rwa [dqTTL_none] at this
+
+/-- **6.1b.** a positive requested TTL within the cap (or no cap configured) is the lease length -/
+theorem dequeue_requested_ttl {qc : Cfg} {pc : PCfg} {now : Int} {ps ps' : PState}
+    {route : String} {batch : Int} {t : Int} {ch : Choice} {r : PResp}
+    (h : pstep qc pc now ps (.dequeue route batch (some t)) ch = some (ps', r))
+    (hpos : 0 < t) (hcap : pc.maxTTL ≤ 0 ∨ t ≤ pc.maxTTL) :
+    PicksLeasedUntil ps' r (now + t) := by
+  have this : PicksLeasedUntil ps' r _ := dequeue_lease_runs_for_accepted_ttl h
+  rwa [dqTTL_within hcap, effTTL_of_pos hpos] at this
+
+/-- **6.1c.** a requested TTL above the cap: the lease runs for `maxTTL` -/
+theorem dequeue_capped_ttl {qc : Cfg} {pc : PCfg} {now : Int} {ps ps' : PState}
+    {route : String} {batch : Int} {t : Int} {ch : Choice} {r : PResp}
+    (h : pstep qc pc now ps (.dequeue route batch (some t)) ch = some (ps', r))
+    (h0 : 0 < pc.maxTTL) (hcap : pc.maxTTL < t) :
+    PicksLeasedUntil ps' r (now + pc.maxTTL) := by
+  have this : PicksLeasedUntil ps' r _ := dequeue_lease_runs_for_accepted_ttl h
+  rwa [dqTTL_capped h0 hcap, effTTL_of_pos h0] at this
+
+/-- **6.1d (the corner).** a NON-POSITIVE requested TTL is handed to the store as it is, and the store
+    then uses ITS default of 30 s — neither `pc.defaultTTL` nor `pc.maxTTL` plays a role. -/
+theorem dequeue_nonpositive_ttl {qc : Cfg} {pc : PCfg} {now : Int} {ps ps' : PState}
+    {route : String} {batch : Int} {t : Int} {ch : Choice} {r : PResp}
+    (h : pstep qc pc now ps (.dequeue route batch (some t)) ch = some (ps', r)) (hnp : t ≤ 0) :
+    PicksLeasedUntil ps' r (now + storeDefaultTTL) := by
+  have this : PicksLeasedUntil ps' r _ := dequeue_lease_runs_for_accepted_ttl h
+  have hd : dqTTL pc (some t) = t := by
+    simp only [dqTTL, Bool.and_eq_true, decide_eq_true_eq]
+    split <;> omega
+  rwa [hd, effTTL_of_nonpos hnp] at this
+
+/-! ### 6b. extend -/
+
+/-- a successful single lease mutation rewrites exactly the holders of the lease id -/
+theorem leaseOne_ok_msgs {c : Cfg} {now : Int} {k : LeaseKind} {l : String} {ms : List Msg}
+    (h : (leaseOne c now k l ms).2 = none) :
+    (leaseOne c now k l ms).1 = ms.filterMap (fun x => if holds l x then applyLease c now k x else some x) := by
+  unfold leaseOne at h ⊢
+  by_cases hl : (l == "") = true
+  · simp only [hl, if_true] at h; cases h
+  · simp only [hl, Bool.false_eq_true, if_false] at h ⊢
+    cases hf : ms.find? (holds l) with
+    | none => simp only [hf] at h; cases h
+    | some m =>
+      simp only [hf] at h ⊢
+      by_cases hlt : m.luntil ≤ now
+      · simp only [hlt, if_true] at h; cases h
+      · simp only [hlt, if_false]
+
+/-- what `Extend` does to a message -/
+def extended (m : Msg) (d : Int) : Msg := { m with luntil := m.luntil + d, next := m.luntil + d }
+
+/-- a 204 of an extend by a positive amount: the store found a holder and rewrote every holder -/
+theorem extend_ok_store {qc : Cfg} {pc : PCfg} {now : Int} {ps ps' : PState} {l : String} {by_ : Int}
+    {ch : Choice} {r : PResp}
+    (h : pstep qc pc now ps (.extend l by_) ch = some (ps', r)) (h204 : r.status = 204) (hby : 0 < by_) :
+    (leaseOne qc now (.extend by_) (trimWS l) ps.q.msgs).2 = none ∧
+    ps'.q.msgs = ps.q.msgs.map (fun x => if holds (trimWS l) x then extended x by_ else x) := by
+  simp only [pstep] at h
+  rcases singleOp_cases h with ⟨_, _, rfl⟩ | ⟨_, hhit, _, _⟩ | ⟨_, _, q', resp, hs, rfl, rfl⟩
+  · cases h204
+  · rw [lookup_none] at hhit; cases hhit
+  · rw [step_lease_eq qc now ps.q (.extend by_) (trimWS l) ch (by intro d hd; cases hd; exact hby)
+      (trimWS_idem l)] at hs
+    simp only [Option.some.injEq, Prod.mk.injEq] at hs
+    obtain ⟨rfl, rfl⟩ := hs
+    cases ho : (leaseOne qc now (.extend by_) (trimWS l) ps.q.msgs).2 with
+    | some e =>
+      rw [ho] at h204
+      cases e <;> cases h204
+    | none =>
+      refine ⟨rfl, ?_⟩
+      show (leaseOne qc now (.extend by_) (trimWS l) ps.q.msgs).1 = _
+      have hf : (fun x => if holds (trimWS l) x then applyLease qc now (.extend by_) x else some x) =
+          fun x => some (if holds (trimWS l) x then extended x by_ else x) := by
+        funext x; split <;> rfl
+      rw [leaseOne_ok_msgs ho, hf, List.filterMap_eq_map']
+
+/-- a 204 of an extend by a positive amount means that some message held the (trimmed) lease id
+    UNEXPIRED when the step began — the hypotheses of the next theorem are satisfiable exactly then -/
+theorem extend_ok_live_holder {qc : Cfg} {pc : PCfg} {now : Int} {ps ps' : PState} {l : String} {by_ : Int}
+    {ch : Choice} {r : PResp}
+    (h : pstep qc pc now ps (.extend l by_) ch = some (ps', r)) (h204 : r.status = 204) (hby : 0 < by_) :
+    ∃ m ∈ ps.q.msgs, m.st = .leased ∧ m.lease = trimWS l ∧ now < m.luntil :=
+  leaseOne_ok (extend_ok_store h h204 hby).1
+
+/-- the extended message itself is in the state afterwards: nothing but `luntil` and `next` moved -/
+theorem extend_exact {qc : Cfg} {pc : PCfg} {now : Int} {ps ps' : PState} {l : String} {by_ : Int}
+    {ch : Choice} {r : PResp}
+    (h : pstep qc pc now ps (.extend l by_) ch = some (ps', r)) (h204 : r.status = 204) (hby : 0 < by_)
+    {m : Msg} (hm : m ∈ ps.q.msgs) (hst : m.st = .leased) (hl : m.lease = trimWS l) :
+    extended m by_ ∈ ps'.q.msgs := by
+  rw [(extend_ok_store h h204 hby).2]
+  refine List.mem_map.2 ⟨m, hm, ?_⟩
+  simp only [holds_iff.2 ⟨hst, hl⟩, if_true]
+
+/-- **6.2 (`extend_moves_lease_end_by_accepted`).** An extend by `by_ > 0` answered 204: a message that
+    was leased under the (trimmed) lease id is, afterwards, still leased under the same lease id and its
+    lease end (and its next-visibility time) is EXACTLY `m.luntil + by_`; by `extend_exact` nothing else
+    about it changed, by `extend_others_untouched` nobody else changed.
+    The pull layer trims the id before the store sees it, so the lease id is `trimWS l` on BOTH backends
+    (memory looks the trimmed id up verbatim, SQLite trims once more: `trimWS_idem`).
+    NO hypothesis on the state (no `Hk.Inv`) and no liveness hypothesis `now < m.luntil` is needed: the
+    204 itself says that the first holder of the id was unexpired (`extend_ok_live_holder`) — an expired,
+    not yet swept lease gets 409 and is released (`stale_single_conflict`). -/
+theorem extend_moves_lease_end_by_accepted {qc : Cfg} {pc : PCfg} {now : Int} {ps ps' : PState}
+    {l : String} {by_ : Int} {ch : Choice} {r : PResp}
+    (h : pstep qc pc now ps (.extend l by_) ch = some (ps', r)) (h204 : r.status = 204) (hby : 0 < by_)
+    {m : Msg} (hm : m ∈ ps.q.msgs) (hst : m.st = .leased) (hl : m.lease = trimWS l) :
+    ∃ m' ∈ ps'.q.msgs, m'.id = m.id ∧ m'.st = .leased ∧ m'.lease = trimWS l ∧
+      m'.luntil = m.luntil + by_ ∧ m'.next = m'.luntil :=
+  ⟨extended m by_, extend_exact h h204 hby hm hst hl, rfl, hst, hl, rfl, rfl⟩
+
+/-- the other messages: whoever does not hold the lease id is untouched -/
+theorem extend_others_untouched {qc : Cfg} {pc : PCfg} {now : Int} {ps ps' : PState}
+    {l : String} {by_ : Int} {ch : Choice} {r : PResp}
+    (h : pstep qc pc now ps (.extend l by_) ch = some (ps', r)) (h204 : r.status = 204) (hby : 0 < by_)
+    {m : Msg} (hm : m ∈ ps.q.msgs) (hno : ¬ (m.st = .leased ∧ m.lease = trimWS l)) : m ∈ ps'.q.msgs := by
+  rw [(extend_ok_store h h204 hby).2]
+  refine List.mem_map.2 ⟨m, hm, ?_⟩
+  have : holds (trimWS l) m = false := by
+    cases hh : holds (trimWS l) m with
+    | false => rfl
+    | true => exact absurd (holds_iff.1 hh) hno
+  simp only [this, Bool.false_eq_true, if_false]
+
+/-- **6.2' (the corner `by_ ≤ 0`).** an extend by a non-positive amount on a non-blank id is answered
+    204 by the store WITHOUT looking at the lease at all: nothing changes (so the lease end does NOT
+    move by `by_`, and the 204 does not even mean that the lease exists). -/
+theorem extend_nonpositive_noop {qc : Cfg} {pc : PCfg} {now : Int} {ps : PState} {l : String} {by_ : Int}
+    {ch : Choice} (hby : by_ ≤ 0) (hl : trimWS l ≠ "") :
+    pstep qc pc now ps (.extend l by_) ch = some (ps, { status := 204, storeCalls := 1 }) := by
+  have hl' : (trimWS l == "") = false := by simpa using hl
+  simp only [pstep, singleOp, hl', lookup_none, Bool.false_eq_true, if_false, step, hby, if_true]
+  rfl
+
+/-! ### 6c. "the" message: with pairwise distinct message ids (clause `nodup` of the reachable-state
+    invariant `Hk.Inv`, `HkModel/Proofs/QueueInv.lean`) the statements hold of EVERY message with that id -/
+
+theorem msg_eq_of_id_eq {ms : List Msg} (h : (ms.map (·.id)).Nodup) {a b : Msg}
+    (ha : a ∈ ms) (hb : b ∈ ms) (hid : a.id = b.id) : a = b := by
+  induction ms with
+  | nil => cases ha
+  | cons x xs ih =>
+    simp only [List.map_cons, List.nodup_cons, List.mem_map, not_exists, not_and] at h
+    rcases List.mem_cons.1 ha with rfl | ha' <;> rcases List.mem_cons.1 hb with rfl | hb'
+    · rfl
+    · exact absurd hid.symm (h.1 b hb')
+    · exact absurd hid (h.1 a ha')
+    · exact ih h.2 ha' hb'
+
+theorem prune_sublist {c : Cfg} {now : Int} {q q1 : Q} {gone : List String}
+    (h : Hk.prune c now q gone = some q1) : q1.msgs.Sublist q.msgs := by
+  unfold Hk.prune at h
+  split at h
+  · dsimp only at h
+    split at h
+    · split at h
+      · simp only [Option.some.injEq] at h
+        subst h
+        exact (List.filter_sublist (l := _)).trans List.filter_sublist
+      · cases h
+    · simp only [Option.some.injEq] at h
+      subst h
+      exact List.filter_sublist
+  · simp only [Option.some.injEq] at h
+    subst h
+    exact List.Sublist.refl _
+
+theorem sweep_ids (c : Cfg) (now : Int) (q : Q) : (sweep c now q).msgs.map (·.id) = q.msgs.map (·.id) := by
+  unfold sweep
+  split
+  · simp only [sweepMsgs, List.map_map]
+    apply List.map_congr_left
+    intro m _
+    simp only [Function.comp]
+    split <;> rfl
+  · rfl
+
+theorem grant_id (now ttl : Int) (picks : List (String × String)) (m : Msg) :
+    (grant now ttl picks m).id = m.id := by
+  unfold grant
+  split
+  · split <;> rfl
+  · rfl
+
+/-- a dequeue creates no message id -/
+theorem step_dequeue_ids {c : Cfg} {now : Int} {q q' : Q} {route target : String} {b t : Int}
+    {ch : Choice} {resp : Resp} (h : Hk.step c now q (.dequeue route target b t) ch = some (q', resp)) :
+    (q'.msgs.map (·.id)).Sublist (q.msgs.map (·.id)) := by
+  simp only [step] at h
+  cases hp : Hk.prune c now q ch.gone with
+  | none => simp only [hp, Option.map_none] at h; cases h
+  | some q0 =>
+    simp only [hp, Option.map_some] at h
+    split at h
+    · simp only [Option.some.injEq, Prod.mk.injEq] at h
+      obtain ⟨rfl, -⟩ := h
+      have hg : ((sweep c now q0).msgs.map (grant now (effTTL t) ch.picks)).map (·.id) =
+          (sweep c now q0).msgs.map (·.id) := by
+        rw [List.map_map]
+        apply List.map_congr_left
+        intro m _
+        exact grant_id _ _ _ _
+      show (((sweep c now q0).msgs.map (grant now (effTTL t) ch.picks)).map (·.id)).Sublist _
+      rw [hg, sweep_ids]
+      exact (prune_sublist hp).map _
+    · cases h
+
+/-- **6.1 for "the" message.** when the message ids of the state before are pairwise distinct, EVERY message
+    with a pick's id is, afterwards, leased under the pick's lease id until `now + effTTL (dqTTL pc ttl)` -/
+theorem dequeue_lease_runs_for_accepted_ttl_unique {qc : Cfg} {pc : PCfg} {now : Int} {ps ps' : PState}
+    {route : String} {batch : Int} {ttl : Option Int} {ch : Choice} {r : PResp}
+    (hnd : (ps.q.msgs.map (·.id)).Nodup)
+    (h : pstep qc pc now ps (.dequeue route batch ttl) ch = some (ps', r)) :
+    ∀ id lease, (id, lease) ∈ r.picks → ∀ m' ∈ ps'.q.msgs, m'.id = id →
+      m'.st = .leased ∧ m'.lease = lease ∧ m'.luntil = now + effTTL (dqTTL pc ttl) := by
+  intro id lease hmem m' hm' hid
+  obtain ⟨m0, hm0, hid0, hst, hl, hu⟩ := dequeue_lease_runs_for_accepted_ttl h id lease hmem
+  have hnd' : (ps'.q.msgs.map (·.id)).Nodup := (step_dequeue_ids (pstep_dequeue_store h).1).nodup hnd
+  have : m' = m0 := msg_eq_of_id_eq hnd' hm' hm0 (hid.trans hid0.symm)
+  subst this
+  exact ⟨hst, hl, hu⟩
+
+/-- **6.2 for "the" message.** when the message ids of the state before are pairwise distinct, EVERY message
+    with `m`'s id is, afterwards, `m` with `luntil` and `next` moved to `m.luntil + by_` -/
+theorem extend_moves_lease_end_by_accepted_unique {qc : Cfg} {pc : PCfg} {now : Int} {ps ps' : PState}
+    {l : String} {by_ : Int} {ch : Choice} {r : PResp} (hnd : (ps.q.msgs.map (·.id)).Nodup)
+    (h : pstep qc pc now ps (.extend l by_) ch = some (ps', r)) (h204 : r.status = 204) (hby : 0 < by_)
+    {m : Msg} (hm : m ∈ ps.q.msgs) (hst : m.st = .leased) (hl : m.lease = trimWS l) :
+    ∀ m' ∈ ps'.q.msgs, m'.id = m.id → m' = extended m by_ := by
+  intro m' hm' hid
+  have hmsgs := (extend_ok_store h h204 hby).2
+  have hnd' : (ps'.q.msgs.map (·.id)).Nodup := by
+    rw [hmsgs, List.map_map]
+    have : ps.q.msgs.map ((·.id) ∘ fun x => if holds (trimWS l) x then extended x by_ else x) =
+        ps.q.msgs.map (·.id) := by
+      apply List.map_congr_left
+      intro x _
+      simp only [Function.comp]
+      split <;> rfl
+    rw [this]
+    exact hnd
+  exact msg_eq_of_id_eq hnd' hm' (extend_exact h h204 hby hm hst hl) hid
+
+namespace Demo
+
+def sec : Int := 1000000000
+
+/-- the configuration of the examples: default lease 45 s, cap 20 s -/
+def pc20 : PCfg := { defaultTTL := 45 * sec, maxTTL := 20 * sec }
+
+def q1 : PState := { q := { msgs := [queued "m1"] } }
+
+/-- what the examples look at: per message its id, state, lease id and lease end -/
+structure LeaseView where
+  id : String
+  st : St
+  lease : String
+  luntil : Int
+  deriving DecidableEq, Repr
+
+/-- status, picks and the lease view of the state after a step (`none` = illegal step) -/
+def leaseEnds (x : Option (PState × PResp)) : Option (Nat × List (String × String) × List LeaseView) :=
+  x.map (fun y => (y.2.status, y.2.picks, y.1.q.msgs.map (fun m => ⟨m.id, m.st, m.lease, m.luntil⟩)))
+
+/-- **non-vacuity of 6.1.** 5 min requested under a 20 s cap: the step is legal, answers 200 with the
+    pick, and the lease ends at `now + 20 s` -/
+example :
+    leaseEnds (pstep {} pc20 1000 q1 (.dequeue "/r" 1 (some (300 * sec))) { picks := [("m1", "L1")] }) =
+    some (200, [("m1", "L1")], [⟨"m1", .leased, "L1", 1000 + 20 * sec⟩]) := by decide
+
+/-- … and theorem 6.1c applies to that very step -/
+example : ∃ ps' r,
+    pstep {} pc20 1000 q1 (.dequeue "/r" 1 (some (300 * sec))) { picks := [("m1", "L1")] } = some (ps', r) ∧
+    r.picks = [("m1", "L1")] ∧ PicksLeasedUntil ps' r (1000 + 20 * sec) := by
+  cases hs : pstep {} pc20 1000 q1 (.dequeue "/r" 1 (some (300 * sec))) { picks := [("m1", "L1")] } with
+  | none => exact absurd hs (by decide)
+  | some x =>
+    obtain ⟨ps', r⟩ := x
+    refine ⟨ps', r, rfl, ?_, dequeue_capped_ttl hs (by decide) (by decide)⟩
+    have : (some (ps', r) : Option (PState × PResp)).map (fun y => y.2.picks) = some [("m1", "L1")] := by
+      rw [← hs]; decide
+    simpa using this
+
+/-- no TTL requested: the default 45 s is capped to 20 s as well; 7 s requested: 7 s -/
+example :
+    leaseEnds (pstep {} pc20 1000 q1 (.dequeue "/r" 1 none) { picks := [("m1", "L1")] }) =
+    some (200, [("m1", "L1")], [⟨"m1", .leased, "L1", 1000 + 20 * sec⟩]) := by decide
+example :
+    leaseEnds (pstep {} pc20 1000 q1 (.dequeue "/r" 1 (some (7 * sec))) { picks := [("m1", "L1")] }) =
+    some (200, [("m1", "L1")], [⟨"m1", .leased, "L1", 1000 + 7 * sec⟩]) := by decide
+
+/-- **the corner of 6.1d.** a requested TTL of 0 (or below) under the same 20 s cap gives a lease of
+    30 s — the store's default, LONGER than `maxTTL` -/
+theorem nonpositive_ttl_escapes_cap :
+    leaseEnds (pstep {} pc20 1000 q1 (.dequeue "/r" 1 (some 0)) { picks := [("m1", "L1")] }) =
+    some (200, [("m1", "L1")], [⟨"m1", .leased, "L1", 1000 + 30 * sec⟩]) := by decide
+
+/-- **non-vacuity of 6.2.** extend by 500: 204 and the lease end moves from 1000 to 1500
+    (the id is trimmed by the pull layer) -/
+example :
+    leaseEnds (pstep {} {} 10 s0 (.extend " good " 500) {}) =
+    some (204, [], [⟨"m1", .leased, "good", 1500⟩]) := by decide
+
+/-- **the corner of 6.2'.** extend by −5: 204, and the lease end stays 1000 (not 995); the same 204
+    for a lease id nobody ever held -/
+theorem nonpositive_extend_is_silent_noop :
+    leaseEnds (pstep {} {} 10 s0 (.extend "good" (-5)) {}) = some (204, [], [⟨"m1", .leased, "good", 1000⟩]) ∧
+    leaseEnds (pstep {} {} 10 s0 (.extend "nobody" 0) {}) = some (204, [], [⟨"m1", .leased, "good", 1000⟩]) := by
+  decide
+
+/-- an expired but not yet swept lease cannot be extended: 409, and the message is released -/
+example :
+    leaseEnds (pstep {} {} 1000 s0 (.extend "good" 500) {}) = some (409, [], [⟨"m1", .queued, "", 0⟩]) := by decide
+
+end Demo
+
 end Hk.PullOps
 
 #print axioms Hk.PullOps.cached_answer_inert
@@ -1279,3 +1730,17 @@ end Hk.PullOps
 #print axioms Hk.PullOps.trimWS_idem
 #print axioms Hk.PullOps.normIds_trimmed
 #print axioms Hk.PullOps.Demo.untrimmed_batch_poisons_cache
+#print axioms Hk.PullOps.dequeue_lease_runs_for_accepted_ttl
+#print axioms Hk.PullOps.dequeue_default_ttl
+#print axioms Hk.PullOps.dequeue_requested_ttl
+#print axioms Hk.PullOps.dequeue_capped_ttl
+#print axioms Hk.PullOps.dequeue_nonpositive_ttl
+#print axioms Hk.PullOps.dequeue_lease_runs_for_accepted_ttl_unique
+#print axioms Hk.PullOps.extend_ok_live_holder
+#print axioms Hk.PullOps.extend_exact
+#print axioms Hk.PullOps.extend_moves_lease_end_by_accepted
+#print axioms Hk.PullOps.extend_others_untouched
+#print axioms Hk.PullOps.extend_nonpositive_noop
+#print axioms Hk.PullOps.extend_moves_lease_end_by_accepted_unique
+#print axioms Hk.PullOps.Demo.nonpositive_ttl_escapes_cap
+#print axioms Hk.PullOps.Demo.nonpositive_extend_is_silent_noop
